@@ -372,7 +372,10 @@ VERIF_TARGET(c17_blockstore, nullptr, 48, 360,
             size_t wit_begin = cb_end - 4 - 34, wit_end = cb_end - 4; // [count=01][len=20][32 bytes] then nLockTime
             size_t off;
             int tries = 0;
-            do { off = 80 + s.index(r.ser.size() - 80); } while (off >= wit_begin && off < wit_end && ++tries < 8);
+            do {
+                off = 80 + s.index(r.ser.size() - 80);
+                if (off >= wit_begin && off < wit_end) st.cls("cbwitness-region-excluded"); // known finding c17.corrupt-cbwitness-connected (probe target c17_probe_cbwitness)
+            } while (off >= wit_begin && off < wit_end && ++tries < 8);
             if (!(off >= wit_begin && off < wit_end)) {
                 bool done = poke(FileName(dir, "blk", r.file), r.pos + off, uint8_t(1u << s.range<unsigned>(0, 7)));
                 if (done) {
